@@ -211,6 +211,9 @@ class Exporter {
     }
     if (FD->isNoReturn()) O["noreturn"] = true;
     O["ret"] = ty(FD->getReturnType());
+    json::Array PT;
+    for (auto *P : FD->parameters()) PT.push_back(ty(P->getType()));
+    O["ptypes"] = std::move(PT);
   }
 
   void exprBody(const Expr *E, json::Object &O) {
